@@ -186,14 +186,26 @@ class Executor:
     def check(self, conds):
         self.queries += 1
         t0 = time.time()
-        self.solver.push()
-        for c in conds:
-            self.solver.add(c)
-        r = self.solver.check()
         m = None
-        if r == z3.sat:
-            m = self.solver.model()
-        self.solver.pop()
+        if any(self._has_fp(c) for c in conds if not isinstance(c, bool)):
+            # floating-point terms: z3's incremental core was seen to answer such queries wrongly after push/pop
+            # (bogus models); they go to a fresh, non-incremental solver every time
+            self.fp_queries = getattr(self, "fp_queries", 0) + 1
+            s1 = z3.Solver()
+            s1.set("timeout", self.solver_timeout_ms)
+            for c in conds:
+                s1.add(c)
+            r = s1.check()
+            if r == z3.sat:
+                m = s1.model()
+        else:
+            self.solver.push()
+            for c in conds:
+                self.solver.add(c)
+            r = self.solver.check()
+            if r == z3.sat:
+                m = self.solver.model()
+            self.solver.pop()
         if r == z3.unknown:
             # second opinion: a fresh QF_BV solver (bit-blasting + SAT) often answers what the incremental default gives up on
             s2 = z3.SolverFor("QF_BV")
@@ -206,10 +218,73 @@ class Executor:
             if r == z3.unknown and self.dump_unknown:
                 with open(self.dump_unknown, "w") as f:
                     f.write(s2.to_smt2())
+        if r == z3.sat and m is not None and not self._model_ok(m, conds):
+            # z3's incremental core can return a model that does not satisfy a query with floating-point terms
+            # (seen with 5.1.0 after push/pop): never believe such a model - re-ask a fresh, non-incremental solver
+            self.bogus_models = getattr(self, "bogus_models", 0) + 1
+            s3 = z3.Solver()
+            s3.set("timeout", self.solver_timeout_ms * 2)
+            for c in conds:
+                s3.add(c)
+            r = s3.check()
+            m = s3.model() if r == z3.sat else None
+            if r == z3.sat and not self._model_ok(m, conds):
+                self.solver_s += time.time() - t0
+                raise Unsupported("solver returned a model that does not satisfy the path query (twice)")
         self.solver_s += time.time() - t0
         if r == z3.unknown:
             raise Unsupported("solver returned unknown (timeout) on a path query")
         return r == z3.sat, m
+
+    _fp_memo = {}
+
+    @classmethod
+    def _has_fp(cls, e):
+        """does the term contain a floating-point sub-term?  (memoised on the AST id; iterative DAG walk)"""
+        memo = cls._fp_memo
+        if len(memo) > 2000000:
+            memo.clear()
+        root = e.get_id()
+        if root in memo:
+            return memo[root]
+        stack = [e]
+        seen = []
+        found = False
+        while stack:
+            x = stack.pop()
+            i = x.get_id()
+            if i in memo:
+                if memo[i]:
+                    found = True
+                    break
+                continue
+            k = x.sort_kind()
+            if k in (z3.Z3_FLOATING_POINT_SORT, z3.Z3_ROUNDING_MODE_SORT):
+                found = True
+                memo[i] = True
+                break
+            seen.append(i)
+            memo[i] = False
+            stack.extend(x.children())
+        if found:
+            # conservative: only the root is recorded as containing FP (sub-terms visited so far stay "unknown -> False" only
+            # if fully explored; reset the ones we marked on this walk)
+            for i in seen:
+                memo.pop(i, None)
+        memo[root] = found
+        return found
+
+    @staticmethod
+    def _model_ok(m, conds):
+        for c in conds:
+            if isinstance(c, bool):
+                if not c:
+                    return False
+                continue
+            v = m.eval(c, model_completion=True)
+            if z3.is_false(v):
+                return False
+        return True
 
     def feasible(self, st, extra):
         ok, _ = self.check(st.pc + list(extra))
